@@ -35,6 +35,7 @@ var _ = vl.Less
 func vJSON(c *Queue[int]) containers.VJSON {
 	return containers.VJSON{C: c, ToJSON: c.ToJSON, FromJSON: c.FromJSON,
 		Marshal: func() ([]byte, error) { return json.Marshal(c) },
+		Unmarshal: func(data []byte) error { return json.Unmarshal(data, c) },
 		Inv:     func() { v.Assert(c.list != nil, "inv-list"); singlylinkedlist.VInv(c.list) },
 		Step:    func() { n := c.Size(); c.Enqueue(v.Int("sx")); v.Assert(c.Size() == n+1, "C12:enqueue-after-load") },
 		Fresh:   func() containers.VJSON { return vJSON(New[int]()) },
